@@ -64,8 +64,11 @@ Definition pi_cloud (l : list call) : list call :=
   filter (fun c => is_cloud_increase c || match c with CA (ATermInAsg _ _ _) => true | _ => false end) l.
 Definition pi_decision (l : list call) : list call :=
   filter (fun c => is_cloud_increase c || match c with CK (KUpdate _ _ _) => true | _ => false end) l.
+(* reads (Get / Describe) are not part of any R projection: the correspondence compares what escalator DOES (writes and cloud
+   requests, per property); what it reads is judged by the property checkers where a property speaks about it (C12: reads
+   stay inside the group; C07/C08: lookups as evidence of attempts) — an extra or missing read-only call is not a deviation *)
 Definition pi_reuse (l : list call) : list call :=
-  filter (fun c => is_cloud_increase c || match c with CK (KGet _ _) | CK (KUpdate _ _ _) | CA (ATermInAsg _ _ _) => true | _ => false end) l.
+  filter (fun c => is_cloud_increase c || match c with CK (KUpdate _ _ _) | CA (ATermInAsg _ _ _) => true | _ => false end) l.
 Definition pi_none (l : list call) : list call := [].
 
 (* agreement on the projected journal and outcome; the in-memory state is compared only where a property is about it *)
@@ -92,12 +95,12 @@ Definition mismatches_C06 := mism false pi_decision.
 Definition propfail_C06 := pfail (fun x calls => check_C06_group x calls && check_up_attempted x calls).
 Definition mismatches_C07 := mism false pi_reuse.
 Definition propfail_C07 := pfail (fun x calls => check_C07_group x calls && check_C07_exact x calls).
-Definition mismatches_C08 := mism false pi_k8s.       Definition propfail_C08 := pfail check_C08_group.
+Definition mismatches_C08 := mism false pi_updates.       Definition propfail_C08 := pfail check_C08_group.
 Definition mismatches_C09 := mism false pi_writes.    Definition propfail_C09 := pfail check_C09_group.
 Definition mismatches_C10 := mism false pi_removal.
 Definition propfail_C10 := pfail (fun x calls => check_C10_group x calls && check_C10_reuse x calls).
 Definition mismatches_C11 := mism true pi_writes.     Definition propfail_C11 := pfail check_C11_group.
-Definition mismatches_C12 := mism false full.         Definition propfail_C12 := pfail check_C12_group.
+Definition mismatches_C12 := mism false pi_writes.         Definition propfail_C12 := pfail check_C12_group.
 Definition mismatches_C15 := mism false pi_updates.   Definition propfail_C15 := pfail check_C15_group.
 Definition mismatches_C19 := mism false pi_removal.
 (* C19 on an observed scan: the journal checker, and: when the reaper's request meets a node that is no member of the cloud
